@@ -735,6 +735,12 @@ func (fc *fileCtx) substitutable(h *helper, param types.Object, arg ast.Expr) bo
 			return simple(x.X)
 		case *ast.ParenExpr:
 			return simple(x.X)
+		case *ast.IndexExpr:
+			// m[const]: the helper has no way to change the caller's map or slice except through a
+			// parameter, which the checks below exclude
+			if tv, ok := fc.pk.Info.Types[x.Index]; ok && tv.Value != nil {
+				return simple(x.X)
+			}
 		}
 		return false
 	}
@@ -1219,6 +1225,11 @@ func (fc *fileCtx) inlineSite(cs *callSite) (string, bool) {
 		for i, l := range cs.lhs {
 			id, isId := l.(*ast.Ident)
 			if !isId {
+				// `x.f, err = H(..)`: any assignable, side-effect-free target can be assigned at the returns
+				if cs.tok == token.ASSIGN && isPureExpr(info, l) {
+					targets = append(targets, fc.text(l.Pos(), l.End()))
+					continue
+				}
 				direct = false
 				break
 			}
@@ -1367,7 +1378,10 @@ func (fc *fileCtx) inlineSite(cs *callSite) (string, bool) {
 		if flat {
 			var newDecl, useNew []string
 			for i, l := range cs.lhs {
-				id := l.(*ast.Ident)
+				id, isId := l.(*ast.Ident)
+				if !isId {
+					continue
+				}
 				if cs.tok == token.DEFINE && id.Name != "_" && info.Defs[id] != nil {
 					newDecl = append(newDecl, "var "+id.Name+" "+pl.rtypes[i])
 					useNew = append(useNew, id.Name)
@@ -1460,6 +1474,10 @@ func (fc *fileCtx) inlineSite(cs *callSite) (string, bool) {
 	}
 	if after != "" {
 		b.WriteString(after + "\n")
+	}
+	if cs.cont != nil && cont == nil {
+		// the error branch was not specialised: the caller's own test follows, unchanged
+		b.WriteString(nz.lineDir(cs.ifPos) + "if " + fc.text(cs.lhs[cs.errIdx].Pos(), cs.lhs[cs.errIdx].End()) + " != nil " + fc.text(cs.cont.Lbrace, cs.cont.Rbrace+1) + "\n")
 	}
 	b.WriteString("_ = 0")
 	nz.inlined[h.f.Name]++
